@@ -16,6 +16,7 @@ package postprocessor
 // its net contribution is 0 once it has returned, on every exit path.
 //@ func (*postprocessor).worker
 //@   property C17
+//@   attr hooked inputCh,outputCh
 //@   local nIn int = 0
 //@   local nOut int = 0
 //@   local inHand *models.Item = nil
